@@ -10,16 +10,32 @@
              = NextBaseFee(parent gas limit, parent gas used, parent base fee) after it, |delta| <= parent/8, >= floor;
              the parent fields must be the ones recorded when the parent itself was observed (H), so the base fee is a
              function of the parent header alone (siblings on one parent get the same value).
+     energy bookkeeping: TotalSupply(t) - TotalBurned of the energy contract = sum of all leaves (+ F3 burn) + rounding,
+             0 <= rounding <= rounding at the parent + number of leaves   (Energy.tla SupplyLaw, across HAYABUSA)
    burnVET / burnVTHO are the amounts of self-destructs whose beneficiary is the destructed contract itself, read from
    the receipts (a Transfer whose sender = recipient = an account that no longer exists): known deviation F3, reported by
    the check under its own signature; any other drift of the totals fails the equations here.                      *)
 EXTENDS LedgerRules, TraceLib, FiniteSets
 
 Trace == LoadTrace("trace.ndjson")
-VARIABLES l, H, G           \* H: block id -> header fields; G: GALACTICA height of the current run (-1 never)
+VARIABLES l, H, G, E           \* H: block id -> header fields (+ energy-law bookkeeping); G: GALACTICA height of the run (-1 never)
 Ev == Trace[l]
 
 HdrOf(h) == [gasLimit |-> h.gasLimit, gasUsed |-> h.gasUsed, hasBase |-> h.hasBase, baseFee |-> h.baseFee]
+
+\* ---- the energy contract's own bookkeeping against the per-leaf sum (Energy.tla SupplyLaw) -----------------------
+\* TotalSupply(t) - TotalBurned = sum of all leaves at t + energy burnt by self-destruct-to-self so far (F3) + rounding;
+\* rounding >= 0 and grows by less than one wei per account per block (every floor loses < 1).
+\* E: block id -> [slack, burnt]  (rounding observed at that block, cumulative F3 energy burn on its chain)
+NetSupply(ev) == IF ev.burnedNeg THEN Add(ev.supply, ev.burned) ELSE Sub(ev.supply, ev.burned)
+SupplyLawOK(ev, parentE) ==
+  LET burnt == Add(parentE.burnt, ev.burnVTHO)
+      held == Add(ev.postVTHO, burnt)
+  IN /\ (ev.burnedNeg \/ GE(ev.supply, ev.burned))
+     /\ GE(NetSupply(ev), held)
+     /\ LE(Sub(NetSupply(ev), held), Add(parentE.slack, FromInt(ev.leaves)))
+EnergyOf(ev, parentE) == [slack |-> Sub(NetSupply(ev), Add(ev.postVTHO, Add(parentE.burnt, ev.burnVTHO))),
+                          burnt |-> Add(parentE.burnt, ev.burnVTHO)]
 
 ReceiptOK(r) ==
   LET f == r.fee
@@ -41,6 +57,7 @@ BlockOK(ev) ==
      /\ Add(ev.postVET, ev.burnVET) = Norm(ev.preVET)
      /\ ev.issued = issue
      /\ VTHOEquation(ev.preVTHO, Add(ev.postVTHO, ev.burnVTHO), rs, ev.issued)
+     /\ ev.parent \in DOMAIN E /\ SupplyLawOK(ev, E[ev.parent])
      \* receipts
      /\ \A i \in 1..Len(rs) : ReceiptOK(rs[i]) /\ rs[i].fee.gal = gal
                               /\ rs[i].fee.baseFee = hdr.baseFee
@@ -55,15 +72,18 @@ BlockOK(ev) ==
 
 Init == /\ HWMInit /\ Len(Trace) >= 1 /\ Trace[1].e = "Reset" /\ Trace[1].seq = 0
         /\ l = 2 /\ G = Trace[1].galactica /\ H = (Trace[1].gen.id :> HdrOf(Trace[1].gen))
+        /\ E = (Trace[1].gen.id :> [slack |-> Zero, burnt |-> Zero])
 
 Next == /\ l <= Len(Trace) /\ Ev.seq = l - 1
         /\ CASE Ev.e = "Reset" -> /\ G' = Ev.galactica /\ H' = (Ev.gen.id :> HdrOf(Ev.gen))
+                                  /\ E' = (Ev.gen.id :> [slack |-> Zero, burnt |-> Zero])
              [] Ev.e = "Block" -> /\ BlockOK(Ev) /\ G' = G
                                   /\ H' = (Ev.id :> HdrOf(Ev.hdr)) @@ H
-             [] Ev.e = "End" -> Ev.count = l - 1 /\ l = Len(Trace) /\ UNCHANGED <<G, H>>
+                                  /\ E' = (Ev.id :> EnergyOf(Ev, E[Ev.parent])) @@ E
+             [] Ev.e = "End" -> Ev.count = l - 1 /\ l = Len(Trace) /\ UNCHANGED <<G, H, E>>
              [] OTHER -> FALSE
         /\ l' = l + 1
-Spec == Init /\ [][Next]_<<l, H, G>>
+Spec == Init /\ [][Next]_<<l, H, G, E>>
 
 Progress == HWM(l)
 TraceAccepted == Accepted(Len(Trace))
